@@ -23,7 +23,7 @@ def load_unit(name):
 class Gen:
     pass
 
-def generate(unit, repo='/repo', import_mode=False, strip_body=(), extra_consts=(), extra_getters=()):
+def generate(unit, repo='/repo', import_mode=False, strip_body=(), extra_consts=(), extra_getters=(), extra_specs=()):
     """returns Gen with .text, .report (per function), .regions [(line_lo, line_hi, fn path, rel file, origin lines)], .items"""
     ov = open(unit['_overlay_path']).read()
     # free functions of the overlay (depth 1 inside verus!{}): decides whether `Self::f` of the real code becomes a bare `f`
@@ -156,6 +156,12 @@ def generate(unit, repo='/repo', import_mode=False, strip_body=(), extra_consts=
             except (X.LostAnchor, OSError): continue
             rt = X.simple_rewrites(X.normalize(X.tokens(rsrc[rs:re_])), unit.get('rewrite_opts'))
             res = res.replace('verus! {', 'verus! {\n' + X.emit(rt), 1); g.extra_consts.append('%s (%s)' % (name, rel)); break
+    # std functions that changed code started to use and vstd does not specify: frame-like assumed specs from tools/std_specs.json
+    g.extra_specs = []
+    for path_, spec_ in extra_specs:
+        if spec_.split('ensures')[0].split('requires')[0].strip() in res: continue      # the overlay already carries it
+        res = res.replace('verus! {', 'verus! {\n' + spec_ + '\n', 1); g.extra_specs.append(path_)
+    if g.extra_specs and 'feature(allocator_api)' not in res: res = '#![feature(allocator_api)]\n' + res
     # one-expression accessors of /repo that changed code calls but the unit does not hold: taken from /repo with the automatic
     # contract `ensures r == <its own body>` (only when the body is a single side-effect-free expression of a `&self` method)
     g.extra_getters = []
@@ -452,6 +458,20 @@ def run_unit(unit, repo='/repo', canary=True, keep=False, rlimit=None, workdir=N
                 g, v, gen_lines = g1, v1, g1.text.split('\n')
                 vj = v.get('json', {}); vr = vj.get('verification-results', {})
                 res['verified'] = vr.get('verified'); res['errors'] = vr.get('errors'); res['verus_success'] = vr.get('success'); res['extra_consts'] = g1.extra_consts; res['extra_consts_names'] = missing
+                res['failures'] = [x for x in (classify_diag(dgn, g, gen_lines) for dgn in v['diags']) if x['kind'] != 'summary']
+        # a changed function that calls a std function vstd has no spec for: inject the frame-like assumed spec (tools/std_specs.json) and retry once
+        try: STD_SPECS = {k_: v_ for k_, v_ in json.load(open(os.path.join(HERE, 'std_specs.json'))).items() if not k_.startswith('_')}
+        except (OSError, ValueError): STD_SPECS = {}
+        unsup = sorted(set(m_.group(1) for f in res['failures'] if f['kind'] == 'tool-error' for m_ in re.finditer(r'`([^`]+)` is not supported', f.get('message', ''))))
+        specs = [(u_, STD_SPECS[u_]['spec']) for u_ in unsup if u_ in STD_SPECS]
+        if specs and any(r['edits'] for r in g.report):
+            g1 = generate(unit, repo, extra_consts=res.get('extra_consts_names', ()), extra_specs=specs)
+            if g1.extra_specs:
+                open(path, 'w').write(g1.text)
+                v1 = run_verus(path, rlimit=rlimit or unit.get('rlimit'))
+                g, v, gen_lines = g1, v1, g1.text.split('\n')
+                vj = v.get('json', {}); vr = vj.get('verification-results', {})
+                res['verified'] = vr.get('verified'); res['errors'] = vr.get('errors'); res['verus_success'] = vr.get('success'); res['extra_std_specs'] = g1.extra_specs
                 res['failures'] = [x for x in (classify_diag(dgn, g, gen_lines) for dgn in v['diags']) if x['kind'] != 'summary']
         getters = sorted(set((m_.group(2), m_.group(1)) for f in res['failures'] if f['kind'] == 'tool-error' for m_ in re.finditer(r'no method named `([a-z_0-9]+)` found for (?:struct|reference|enum) `&?(?:mut )?([A-Za-z_0-9]+)', f.get('message', ''))))
         if getters and any(r['edits'] for r in g.report):
